@@ -51,6 +51,7 @@ func specHex4(s string, o int) rune {
 //@ loop 3 invariant [C16.u.value] (rangeidx == 0 ==> val == 0) && (rangeidx == 1 ==> val == specHexUp(part[1])) && (rangeidx == 2 ==> val == specHexUp(part[1])*16 + specHexUp(part[2])) && (rangeidx == 3 ==> val == (specHexUp(part[1])*16 + specHexUp(part[2]))*16 + specHexUp(part[3])) && (rangeidx == 4 ==> val == specHex4(part, 1)) && (rangeidx == 5 ==> val == specHex4(part, 1)*16 + specHexUp(part[5])) && (rangeidx == 6 ==> val == (specHex4(part, 1)*16 + specHexUp(part[5]))*16 + specHexUp(part[6]))
 //@ loop 3 exit-when [C16.u.accept] good ==> (forall k :: 0 <= k && k < len(part) - 1 ==> hexUp(part[k+1])) && (len(part) == 5 ==> val == specHex4(part, 1)) && (len(part) == 6 ==> val == specHex4(part, 1)*16 + specHexUp(part[5])) && (len(part) == 7 ==> val == (specHex4(part, 1)*16 + specHexUp(part[5]))*16 + specHexUp(part[6]))
 //@ loop 3 exit-when [C16.u.reject] !good ==> !hexUp(part[prev(rangeidx)+1])
+//@ loop 2 invariant [C16.uni.phase] 0 <= rangeidx && rangeidx % 4 == rangeidx - len(candidates)*4
 
 // C18: lock discipline of the lazily built name tables.  Every access to a
 // field of glyphMap (other than the mutex itself) happens with the mutex held
